@@ -59,6 +59,11 @@ def main(tier):
     run = PropertyRun('C05', tier, level='proof')
     run.add(SpecTask(ExtractHeader()), SpecTask(BuildHeader()), LemmaTask('C05:lemmas', lemmas))
     wire.add_c05_tasks(run)
+    # the header a reassembled message reports is the header parsed from the identifier of the frame that completes it: the
+    # delivery clause of the reassembly transition contract (also part of C04)
+    from props.C04 import TransitionTask
+    for m in range(0, 9):
+        run.add(TransitionTask(m, prop='C05'))
     run.trust('pyvc encoding of Python int semantics (unbounded ints; >>, <<, & as floor div / mul / mod), cross-checked by ./check selftest',
               'z3 5.1 (python API); cvc5 1.0.3 / z3 4.8.12 CLI only on unknown',
               'contracts/headers.py + spec/specfun.py (extract/build layout taken from the property statement)')
